@@ -107,7 +107,11 @@ def oracle(case, impl):
                 s, _, fr = out[3:].partition(" frac=")
                 registered[s] = parse_rat(fr)
                 # decidable part of the validation: these must never be accepted
-                bad = (minor in ("-1", "x") or sf in ("bad", "0:2", "-1/100:2") or sym in ("-", "<empty>")
+                # (with an explicit minor unit the code only checks that the
+                # fraction's precision fits; zero / negative fractions are then
+                # accepted -- outside what C08 states, mirrored by the model)
+                bad = (minor in ("-1", "x") or sf == "bad" or sym in ("-", "<empty>")
+                       or (minor == "-" and sf in ("0:2", "-1/100:2"))
                        or (minor not in ("-", "x", "-1") and sf not in ("-", "bad") and int(minor) != int(sf.split(":")[1]))
                        or (minor == "-" and sf in ("33333/100000:5", "1:0", "3/100:2")))
                 if bad:
